@@ -438,6 +438,41 @@ def r5_poweroff(L, repo):
     who_may_clear(L, repo, "C03.R5")
 
 
+def r6_queued_identity(L, repo):
+    """R6 (each accepted burst is its own queue entry): the message object an arrival puts into the transmit queue is
+    created for that datagram.  DATAInterface.recv_tx_msg() must return a message constructed during the call (or
+    None); an object kept in an attribute and handed out again would make several queue entries one object, which the
+    next datagram overwrites - earlier bursts vanish and the last one is sent several times."""
+    from pyutil import return_origins
+    ci, fd = repo.need_method("data_if", "DATAInterface", "recv_tx_msg")
+    F2 = rel("data_if")
+    fn = "DATAInterface.recv_tx_msg"
+    L.unit(F2)
+    L.fn(F2, fn)
+    kinds = list(return_origins(repo, ci, fd))
+    bad = sorted({t for k, _n, t, _r in kinds if k in ("shared", "param")})
+    unk = sorted({t for k, _n, t, _r in kinds if k == "unknown"})
+    if unk and not bad:
+        raise AnalysisError("%s: origin of the returned message is not classifiable (%s)" % (fn, unk[0]))
+    L.ob("C03.R6", F2, fn, "the message returned for a datagram is an object created during this call", "a new TxMsg (or None)",
+         bad[:3] or "fresh", not bad, fd.lineno)
+    L.floor("C03.R6", "returns of recv_tx_msg classified", len(kinds), 2)
+    # the arrival path appends exactly what it received (no stored object)
+    c2, rd = repo.need_method("transceiver", "Transceiver", "recv_data_msg")
+    fnr = "Transceiver.recv_data_msg"
+    apps = [c for c in calls_in(rd) if canon(c.func).endswith("tx_queue_append")]
+    for c in apps:
+        a0 = c.args[0] if c.args else None
+        kinds2 = list(return_origins(repo, c2, rd, exprs=[a0])) if a0 is not None else []
+        # what is appended must come from recv_tx_msg() of this call
+        ok = bool(kinds2) and all(k in ("fresh", "unknown") for k, _n, _t, _e in kinds2) and any(
+            "recv_tx_msg" in t for k, _n, t, _e in kinds2) or (isinstance(a0, ast.Name) and any(
+                isinstance(x, ast.Assign) and any(isinstance(t, ast.Name) and t.id == a0.id for t in x.targets) and "recv_tx_msg" in canon(x.value)
+                for x in ast.walk(rd)))
+        L.ob("C03.R6", rel("transceiver"), fnr, "what is queued is the message just received", "msg = self.data_if.recv_tx_msg()",
+             canon(a0) if a0 is not None else None, ok, c.lineno)
+
+
 def run(L, tier):
     repo = Repo(L.repo)
     L.unit(rel("transceiver"))
@@ -446,3 +481,4 @@ def run(L, tier):
     L.stage(r3_partition, L, repo)
     n = L.stage(r4_modular, L, repo, tier)
     L.stage(r5_poweroff, L, repo)
+    L.stage(r6_queued_identity, L, repo)
